@@ -663,6 +663,11 @@ impl<'a> Model<'a> {
                 // If the range under study is in the middle we augment it
                 col.max = max + column_count;
             }
+            // What is pushed past the last column is gone
+            if col.min > LAST_COLUMN {
+                continue;
+            }
+            col.max = col.max.min(LAST_COLUMN);
             new_columns.push(col.clone());
         }
         // TODO: If in a row the cell to the right and left have the same style we should copy it
@@ -977,7 +982,10 @@ impl<'a> Model<'a> {
             } else if r.r >= row {
                 let mut new_row = r.clone();
                 new_row.r = r.r + row_count;
-                new_rows.push(new_row);
+                // What is pushed past the last row is gone
+                if new_row.r <= LAST_ROW {
+                    new_rows.push(new_row);
+                }
             }
         }
         self.workbook.worksheets[sheet as usize].rows = new_rows;
